@@ -198,6 +198,8 @@ def run(prop, tier="quick", seed=0, replay_path=None):
             for o in E.obligations[n0:]:
                 o.id = "%s/dep:%s" % (prop, o.id)
                 o.meta["dep"] = dep.upper()
+                if o.meta.get("alt_of"):
+                    o.meta["alt_of"] = "%s/dep:%s" % (prop, o.meta["alt_of"])
     except OutOfReach as e:
         status["out_of_reach"].append(str(e))
         log("OUT-OF-REACH:", e)
